@@ -2449,7 +2449,7 @@ def oracle(prog, plain, old, new, mixed=None):
     for mode, run in (('old', old), ('new', new), ('mixed', mixed)):
         for key, what in run[2]:
             bad.append((key, what))
-    bad += mixed_oracle(prog, plain, mixed)
+    bad += mixed_oracle(prog, plain, mixed, old, new)
     ptrace, otrace, ntrace = plain[0], old[0], new[0]
     tainted = set()        # a style whose values already went wrong: later differences are consequences
     div = shaped_divergence(old, new)
@@ -2519,7 +2519,7 @@ def oracle(prog, plain, old, new, mixed=None):
     return bad
 
 
-def mixed_oracle(prog, plain, mixed):
+def mixed_oracle(prog, plain, mixed, old, new):
     """the run in which the configured Field style is switched between statements, against the plain-array reference:
     same values, shapes, dtype classes and exception classes at every statement and in the final read-out"""
     bad = []
@@ -2529,8 +2529,11 @@ def mixed_oracle(prog, plain, mixed):
             break
         sig = stmt_sig(s)
         p, r = plain[0][i], mixed[0][i]
-        if any(k[0] != 'f' for k in mixed[3][i]):
-            return bad          # `.shaped` of something that is no Field in this mixture of styles (accepted divergence, see `oracle`)
+        if any(k[0] != 'f' for k in mixed[3][i]) or not (i < len(old[3]) and i < len(new[3]) and mixed[3][i] == old[3][i] == new[3][i]):
+            # `.shaped` of something that is not the same kind of object (a Field on the same grid) under old-style, new-style
+            # and this mixture of styles: the accepted divergence of `oracle` (0-d results, np.where - whose result takes the
+            # grid of the leftmost *new-style* argument in a mixture)
+            return bad
         if s[0] == 'assign' and s[2][0] == 'ext' and EXT[s[2][1]].get('fieldonly'):
             if r[0] == 'E' and p[0] != 'E' or p[0] is None:
                 return bad      # field-only library functions have no plain reference
